@@ -105,6 +105,15 @@ Theorem C34_server_no_grant_after_bucket_delete : forall pre b path q post r,
 Proof. exact no_grant_after_bucket_delete. Qed.
 Print Assumptions C34_server_no_grant_after_bucket_delete.
 
+(* a virtual-hosted request (Host = <bucket>.<api endpoint>) is decided by the configuration of the bucket
+   its Host names: the path the CORS middleware sees after the virtual-host rewrite resolves to that bucket *)
+Theorem C34_server_vhost_addresses_host_bucket : forall b p,
+  b <> [] -> ~ In slash b -> trim_space b = b ->
+  (p = [] \/ exists rest, p = slash :: rest) ->
+  bucket_from_path (vhost_path b p) = Some b.
+Proof. exact bucket_from_path_vhost. Qed.
+Print Assumptions C34_server_vhost_addresses_host_bucket.
+
 (* non-vacuity: configuration cached by a first request, bucket deleted and re-created, same request again *)
 Definition ex_get (o : bytes) : request := {| q_method := B"GET"; q_origin := o; q_acrm := []; q_acrh := [] |}.
 Example C34_ex_server_history :
